@@ -68,6 +68,11 @@ let bytes_mode () =
          | "pyc-zero-mtime" -> report id nlink_one check x (pyc_zero_mtime x)
          | "javadoc" -> report id nlink_one check x (javadoc_process epoch x)
          | "pyc" -> report id nlink_one check x (pyc_process x)
+         | "pyc-domain" ->
+           (* is the input inside the domain of the round-trip theorems, and is its output read back as the same tree *)
+           (match pyc_domain x with
+            | None -> Printf.printf "%s DomNone -\n" id
+            | Some (dom, rr) -> Printf.printf "%s Dom%d%d -\n" id (if dom then 1 else 0) (if rr then 1 else 0))
          | "zip" | "jar" ->
            (match zip_init epoch with
             | None -> Printf.printf "%s InitFail %s\n" id (hex x)
@@ -134,7 +139,7 @@ let fs_mode file =
         let nl = List.rev !nodes in
         let names p = (try let (_, i, _) = List.find (fun (q, _, _) -> q = p) nl in Some (n_of_int i) with Not_found -> None) in
         let inodes j = (try let (_, _, n) = List.find (fun (_, i, _) -> n_of_int i = j) nl in Some n with Not_found -> None) in
-        let next = 1 + List.fold_left (fun a (_, i, _) -> max a i) 0 nl in
+        let next = 1 + List.fold_left (fun a (_, i, _) -> Stdlib.max a i) 0 nl in
         let f0 = { names = names; inodes = inodes; next_ino = n_of_int next } in
         let env = { e_umask = n_of_int (int_of_string umask); e_uid = n_of_int (int_of_string uid);
                     e_gid = n_of_int (int_of_string gid); e_can_chown = (canchown = "1"); e_now = z_of_string now } in
@@ -163,7 +168,7 @@ let fs_mode file =
         let nl = List.rev !nodes in
         let names p = (try let (_, i, _) = List.find (fun (q, _, _) -> q = p) nl in Some (n_of_int i) with Not_found -> None) in
         let inodes j = (try let (_, _, n) = List.find (fun (_, i, _) -> n_of_int i = j) nl in Some n with Not_found -> None) in
-        let next = 1 + List.fold_left (fun a (_, i, _) -> max a i) 0 nl in
+        let next = 1 + List.fold_left (fun a (_, i, _) -> Stdlib.max a i) 0 nl in
         let f0 = { names = names; inodes = inodes; next_ino = n_of_int next } in
         let env = { e_umask = n_of_int (int_of_string umask); e_uid = n_of_int (int_of_string uid);
                     e_gid = n_of_int (int_of_string gid); e_can_chown = (canchown = "1"); e_now = z_of_string now } in
